@@ -362,6 +362,7 @@ func Run(w *sim.World, opt Options) *Outcome {
 	weight := make([]int, n+1)
 	phaseLen := []int{50, 150, 400, 100000}[w.Choose(sim.KCfg, 4)]
 	slowRepl := w.Choose(sim.KCfg, 3) == 1
+	patient := w.Choose(sim.KCfg, 3) == 0
 	// leader flapping (a third of the runs with >= 3 servers): in every phase one server is the
 	// favoured candidate (its election timer fires readily, the others' hardly ever) and,
 	// usually, the previous favourite is cut off (its messages are delayed in both
@@ -478,9 +479,56 @@ func Run(w *sim.World, opt Options) *Outcome {
 			r.Isolated = nil
 		}
 	}
+	// depose (patient mode, a third of the runs without flapping or hunting, 3+ servers): some
+	// time after a Put has been acknowledged the current leader is cut off and another
+	// server favoured, clients wait; once a new leader exists the network heals and the next
+	// request is usually a Get of that key (NextReq): acknowledged writes must survive
+	deposing, ackStep, deposed := false, -1, 0
+	if patient && (flap || hunt || n < 3) {
+		patient = false
+	}
+	if patient {
+		max += 1500
+		out.Probes["depose_mode"]++
+	}
 	for out.Steps = 0; out.Steps < max; out.Steps++ {
 		if hunt && hs >= 0 && hs < 3 {
 			huntStep()
+		}
+		if patient {
+			switch {
+			case !deposing && ackedPutKey != "" && elections == electionsAtAck && deposed < 2:
+				if ackStep < 0 {
+					ackStep = out.Steps
+				}
+				if out.Steps-ackStep > 80 { // followers have heard of the commit by now, usually
+					leader := 0
+					for i := 1; i <= n; i++ {
+						if r.G("state", i).AsString() == "leader" {
+							leader = i
+						}
+					}
+					if leader != 0 {
+						deposing = true
+						deposed++
+						fav = 1 + (leader+w.Choose(sim.KFault, n-1))%n
+						r.Isolated = map[int]bool{leader: true}
+						r.TimeoutP0 = func(sv int) float64 {
+							if sv == fav {
+								return 0.5
+							}
+							return 0.998
+						}
+						ackStep = out.Steps
+						out.Probes["leader_deposed_after_acked_put"]++
+					}
+				}
+			case deposing && (elections > electionsAtAck || out.Steps-ackStep > 2500):
+				deposing, ackStep = false, -1
+				r.Isolated, r.TimeoutP0 = nil, nil
+			case ackedPutKey == "":
+				ackStep = -1
+			}
 		}
 		en := wd.Enabled()
 		if len(en) == 0 {
@@ -550,6 +598,8 @@ func Run(w *sim.World, opt Options) *Outcome {
 				}
 			} else if hunt && hs >= 2 {
 				ws[i] = 0 // clients are slow while the old leader is back: no entry of its new term yet
+			} else if patient && (deposing || (ackedPutKey != "" && elections == electionsAtAck && deposed < 2)) {
+				ws[i] = 0 // patient clients: after an acknowledged Put they wait for the leader change before asking again
 			}
 			total += ws[i]
 		}
